@@ -730,7 +730,10 @@ class Interp:
         return self.B.build_seq(self, e.elts, "list")
 
     def eval_Set(self, e):
-        return set(self.eval(x) for x in e.elts)
+        out = set()
+        for x in e.elts:
+            out.add(self.B.canon_key(out, self.eval(x)))
+        return out
 
     def eval_Dict(self, e):
         d = {}
@@ -738,7 +741,7 @@ class Interp:
             if k is None:
                 d.update(self.eval(v))
             else:
-                d[self.B.hashable(self.eval(k))] = self.eval(v)
+                d[self.B.canon_key(d.keys(), self.eval(k))] = self.eval(v)
         return d
 
     def eval_Attribute(self, e):
